@@ -7,11 +7,11 @@ mkdir -p /tmp/seedchk; rm -f "$res"
 git -C /repo worktree add --detach "$wt" HEAD >/dev/null 2>&1 || { echo "worktree failed" > "$res"; exit 1; }
 cleanup() { git -C /repo worktree remove --force "$wt" >/dev/null 2>&1; rm -rf "$wt"; }
 ( cd "$wt" && make -j16 it >/dev/null 2>&1 )
-( cd "$src" && timeout 1200 sh ./demo.sh "$wt" > /tmp/seedchk/$name.clean.log 2>&1 ); c0=$?
+( cd "$src" && timeout 1200 ${SEED_SH:-sh} ./demo.sh "$wt" > /tmp/seedchk/$name.clean.log 2>&1 ); c0=$?
 ( cd "$wt" && git apply "$src/patch.diff" ) || { echo "FAIL patch does not apply" > "$res"; cleanup; exit 1; }
 ( cd "$wt" && make -j16 it >/dev/null 2>&1 && make -C tests test > /tmp/seedchk/$name.tests.log 2>&1 ); t=$?
 npass=$(grep -c "^100%" /tmp/seedchk/$name.tests.log 2>/dev/null)
-( cd "$src" && timeout 1200 sh ./demo.sh "$wt" > /tmp/seedchk/$name.patched.log 2>&1 ); c1=$?
+( cd "$src" && timeout 1200 ${SEED_SH:-sh} ./demo.sh "$wt" > /tmp/seedchk/$name.patched.log 2>&1 ); c1=$?
 cleanup
 if [ $c0 -eq 0 ] && [ $t -eq 0 ] && [ "$npass" = "4" ] && [ $c1 -ne 0 ]; then
   echo "OK demo_clean=$c0 build+tests=$t suites100=$npass demo_patched=$c1" > "$res"
